@@ -26,6 +26,23 @@ class GridTable:
         return f"g{self.gid(g)}"
 
 
+class PosTable(GridTable):
+    """names a grid by its coordinates (and vacancies): for comparing two executions of the implementation
+    with each other, where a grid at other positions must not get the same name"""
+
+    def show(self, g):
+        from fractions import Fraction
+        try:
+            f = lambda v: str(Fraction(v))
+            txt = "g<" + ",".join(f(v) for v in g.x_positions) + "|" + ",".join(f(v) for v in g.y_positions) + ">"
+            vac = getattr(g, "vacancies", None)
+            if vac:
+                txt += "-" + str(sorted(vac))
+            return txt
+        except Exception:
+            return "g?" + repr(g)[:80]
+
+
 def norm_sel(s):
     """-> ('S', start, stop, step) | ('L', [ints]) | None if not a selector"""
     from kirin.dialects import ilist
